@@ -114,8 +114,9 @@ EXPORT errno_t _strnset_s_chk(char *restrict dest, rsize_t dmax, int value, rsiz
     }
 #ifdef SAFECLIB_STR_NULL_SLACK
     /* null slack to clear any data */
-    if (!*dest)
-        memset(dest, 0, dmax - (dest - orig_dest));
+    dmax -= (rsize_t)(dest - orig_dest);
+    if (dmax && !*dest) /* dmax == 0: dest points behind the buffer now */
+        memset(dest, 0, dmax);
 #endif
 
     return (EOK);
